@@ -78,6 +78,9 @@ pub enum Op {
     SkipBack(usize),
     ParseInt(&'static str),
     ParseBool,
+    /// `parse_with!(parser, T)` (HasParser / StdParser::<T>::parse_with): behaves as `Parser::parse_T`
+    PwInt(&'static str),
+    PwBool,
 }
 
 fn m_name(m: M) -> &'static str {
@@ -117,6 +120,8 @@ fn op_tok(op: &Op) -> String {
         Op::SkipBack(n) => format!("skip_back:{}", n),
         Op::ParseInt(t) => format!("parse_{}", t),
         Op::ParseBool => "parse_bool".into(),
+        Op::PwInt(t) => format!("pw_{}", t),
+        Op::PwBool => "pw_bool".into(),
     }
 }
 
@@ -186,6 +191,18 @@ macro_rules! int_method {
     };
 }
 
+macro_rules! pw_method {
+    ($p:expr, $ty:expr, $( $name:literal => $t:ty ),*) => {
+        match $ty {
+            $( $name => match konst::parse_with!($p, $t) {
+                Ok((v, p)) => StepOut::Ok(p, Val::Int(v.to_string())),
+                Err(e) => StepOut::Err(e),
+            }, )*
+            _ => unreachable!("type {}", $ty),
+        }
+    };
+}
+
 /// the REAL method call
 fn apply<'a>(p: Parser<'a>, op: &Op) -> StepOut<'a> {
     match *op {
@@ -213,6 +230,13 @@ fn apply<'a>(p: Parser<'a>, op: &Op) -> StepOut<'a> {
             "u128" => parse_u128, "usize" => parse_usize, "i8" => parse_i8, "i16" => parse_i16,
             "i32" => parse_i32, "i64" => parse_i64, "i128" => parse_i128, "isize" => parse_isize),
         Op::ParseBool => match p.parse_bool() {
+            Ok((v, p)) => StepOut::Ok(p, Val::Bool(v)),
+            Err(e) => StepOut::Err(e),
+        },
+        Op::PwInt(t) => pw_method!(p, t,
+            "u8" => u8, "u16" => u16, "u32" => u32, "u64" => u64, "u128" => u128, "usize" => usize,
+            "i8" => i8, "i16" => i16, "i32" => i32, "i64" => i64, "i128" => i128, "isize" => isize),
+        Op::PwBool => match konst::parse_with!(p, bool) {
             Ok((v, p)) => StepOut::Ok(p, Val::Bool(v)),
             Err(e) => StepOut::Err(e),
         },
@@ -381,10 +405,10 @@ fn ref_step<'a>(r: &'a str, e: &mut bool, op: &Op) -> Ref<'a> {
             }
             Ref::Ok(&r[..k], Val::Unit)
         }
-        Op::ParseInt(t) => int_ref!(r, t,
+        Op::ParseInt(t) | Op::PwInt(t) => int_ref!(r, t,
             "u8" => u8, "u16" => u16, "u32" => u32, "u64" => u64, "u128" => u128, "usize" => usize,
             "i8" => i8, "i16" => i16, "i32" => i32, "i64" => i64, "i128" => i128, "isize" => isize),
-        Op::ParseBool => {
+        Op::ParseBool | Op::PwBool => {
             if let Some(t) = r.strip_prefix("true") {
                 Ref::Ok(t, Val::Bool(true))
             } else if let Some(t) = r.strip_prefix("false") {
@@ -585,6 +609,9 @@ pub fn all_ops() -> Vec<Op> {
         v.push(Op::SkipBack(n));
     }
     v.extend([Op::ParseInt("u8"), Op::ParseInt("i16"), Op::ParseBool]);
+    // parse_with! after operations that worked from the end / both ends: the error must still be parse_T's
+    // (added after seeded change C13-r4-1)
+    v.extend([Op::PwInt("u8"), Op::PwInt("i16"), Op::PwBool]);
     v
 }
 
@@ -600,7 +627,13 @@ fn random_op(rng: &mut Rng, ops: &[Op]) -> Op {
                 0 => Op::ParseBool,
                 1 => Op::Skip(rng.below(6) as usize),
                 2 => Op::SkipBack(rng.below(6) as usize),
-                _ => Op::ParseInt(tys[rng.below(12) as usize]),
+                _ => {
+                    if rng.below(3) == 0 {
+                        Op::PwInt(tys[rng.below(12) as usize])
+                    } else {
+                        Op::ParseInt(tys[rng.below(12) as usize])
+                    }
+                }
             }
         }
         _ => ops[rng.below(ops.len() as u64) as usize],
@@ -650,7 +683,8 @@ pub fn run_mode(mode: Mode, tier: &str, seed: u64, out: &mut Out) {
     // operation x a second operation from a small set (both orders) x both bases
     {
         let ptoks: [&[u8]; 10] = [b"true", b"false", b"-1", b"12", b"300", b"a", b" ", "ñ".as_bytes(), b"-0", b"0"];
-        let pops = [Op::ParseBool, Op::ParseInt("u8"), Op::ParseInt("i8"), Op::ParseInt("i16"), Op::ParseInt("u64")];
+        let pops = [Op::ParseBool, Op::ParseInt("u8"), Op::ParseInt("i8"), Op::ParseInt("i16"), Op::ParseInt("u64"),
+                    Op::PwInt("u8"), Op::PwInt("i16"), Op::PwBool];
         let others = [
             Op::TrimStart, Op::Trim, Op::SkipBack(1), Op::Skip(1), Op::P(M::StripPrefix, Pat::S("true")),
             Op::P(M::Split, Pat::S(" ")), Op::P(M::RfindSkip, Pat::S("a")), Op::ParseBool, Op::ParseInt("i8"),
@@ -663,6 +697,27 @@ pub fn run_mode(mode: Mode, tier: &str, seed: u64, out: &mut Out) {
                     for b2 in &others {
                         run_history(out, mode, base, &w, &[*a, *b2], false);
                         run_history(out, mode, base, &w, &[*b2, *a], false);
+                    }
+                }
+            }
+        }
+    }
+    // ASCII whitespace: every string of at most 4 tokens over all five whitespace bytes, vertical tab (NOT
+    // whitespace), a letter and a 2-byte char x the three whitespace trims, alone and followed by an operation that
+    // reports the offsets again (added after seeded change C13-r4-2: Parser::trim counted the leading whitespace with
+    // a byte list that lacked form feed)
+    {
+        let wtoks: [&[u8]; 8] = [b" ", b"\t", b"\n", b"\x0C", b"\r", b"\x0B", b"x", "ñ".as_bytes()];
+        let trims = [Op::Trim, Op::TrimStart, Op::TrimEnd];
+        let seconds = [Op::ParseInt("u8"), Op::P(M::StripSuffix, Pat::S("b")), Op::Skip(1)];
+        for w in all_words(&wtoks, 4).iter().map(to_str) {
+            for base in [0usize, 7] {
+                for t in &trims {
+                    run_history(out, mode, base, &w, &[*t], false);
+                    if base == 0 {
+                        for s2 in &seconds {
+                            run_history(out, mode, base, &w, &[*t, *s2], false);
+                        }
                     }
                 }
             }
